@@ -119,93 +119,165 @@ def check_serialize(ctx):
     if fn is None:
         raise AnalysisError("serialize_request not found")
     ctx.fn("build_epr.serialize_request")
-    pt, pp = A.param_names(fn)[:2]
+    # serialize_request, executed by the checker's interpreter over every combination of request type, pair count, time limit,
+    # local / remote rotations and random bases: each slot of the argument array holds its own field (the member value for
+    # enumerations) exactly when that field is set - and, for the measure-only fields, the request is of a measuring type -
+    # whatever the other fields are; every other slot stays None; the array has SER_CREATE_LEN entries
+    import itertools
+    from .. import circuit as C
+    from ..model import EnumMember
+    qcm = repo.module(QC)
+
+    def member(cls_name, name):
+        c = qcm.classes[cls_name]
+        return EnumMember(c.qualname, name, ev.enum_members(c)[name])
+
+    idx = {}
+    for cname in sorted(m.assigns):
+        if cname.startswith("SER_CREATE_IDX_"):
+            slot = cname[len("SER_CREATE_IDX_"):].lower()
+            idx[ALIAS.get(slot, slot)] = ev.name(BE, cname)
+    length = ev.name(BE, "SER_CREATE_LEN")
+    wrong, missing, extra = {}, {}, {}
     n = 0
-    for st in A.body_nodes(fn):
-        if isinstance(st, ast.Assign) and isinstance(st.targets[0], ast.Subscript) and isinstance(st.targets[0].slice, ast.Name) and st.targets[0].slice.id.startswith("SER_CREATE_IDX_"):
+    bad_len = None
+    try:
+        for tpn, number, max_time, rl, rr, rbl, rbr in itertools.product(("K", "M", "R"), (0, 3), (0, 17), ((0, 0, 0), (1, 2, 3), (0, 0, 5)), ((0, 0, 0), (4, 5, 6)),
+                                                                         (None, "XZ", "NONE"), (None, "CHSH")):
             n += 1
-            slot = st.targets[0].slice.id[len("SER_CREATE_IDX_"):].lower()
-            slot = ALIAS.get(slot, slot)
-            v = A.norm(st.value)
-            if slot == "type":
-                exp = [f"{pt}.value"]
-            elif slot.startswith("rotation_"):
-                side = "local" if "local" in slot else "remote"
-                idx = {"x1": 0, "y": 1, "x2": 2}["x1" if slot.endswith("1") else ("x2" if slot.endswith("2") else "y")]
-                exp = [f"{pp}.rotations_{side}[{idx}]"]
-            elif slot in ("time_unit", "random_basis_local", "random_basis_remote"):
-                exp = [f"{pp}.{slot}.value"]
-            else:
-                exp = [f"{pp}.{slot}"]
-            ctx.check("C11.S", f"serialize_request:{slot}", v in exp, f"slot `{slot}` of the argument array is filled with `{src(st.value)}`; expected `{exp[0]}`", repo.loc(m, st),
-                      sample={"slot": slot, "source": src(st.value)})
-            # the write may depend on the request type and on its own field only (elif arms count with the negated earlier tests)
-            own = {"type": set(), "time_unit": {"time_unit", "max_time"}}.get(slot)
-            if own is None:
-                own = {f"rotations_{'local' if 'local' in slot else 'remote'}"} if slot.startswith("rotation_") else {slot}
-            others = set()
-            for t, pol in G.path_conditions(fn, st):
-                for x in ast.walk(t):
-                    if isinstance(x, ast.Attribute) and isinstance(x.value, ast.Name) and x.value.id == pp and x.attr not in own:
-                        others.add(x.attr)
-            ctx.check("C11.S", f"serialize_request:{slot}:written-whenever-its-own-field-is-set", not others,
-                      f"slot `{slot}` is written only under a condition on other request fields ({', '.join(sorted(others))}): for some combinations of arguments the field never reaches the array "
-                      "and the network stack sees its default instead", repo.loc(m, st), sample={"slot": slot, "guard_fields": sorted(own)})
-    ctx.anchor("C11.S", "slot assignments in serialize_request", n, 12)
-    # array length
-    d = A.single_defs(fn)
-    ok = "array" in d and "SER_CREATE_LEN" in A.norm(d["array"])
-    ctx.check("C11.S", "serialize_request:array-length", ok, "the argument array is not created with SER_CREATE_LEN entries", repo.loc(m, fn), trivial=True)
-    # deserialize
+            params = C.Obj(None, {"remote_node_id": 2, "epr_socket_id": 1, "number": number, "post_routine": None, "sequential": False, "time_unit": member("TimeUnit", "MILLI_SECONDS"),
+                                  "max_time": max_time, "expect_phi_plus": True, "min_fidelity_all_at_end": None, "max_tries": None,
+                                  "random_basis_local": member("RandomBasis", rbl) if rbl else None, "random_basis_remote": member("RandomBasis", rbr) if rbr else None,
+                                  "rotations_local": rl, "rotations_remote": rr})
+            tp = member("EPRType", tpn)
+            label = f"type {tpn}, number={number}, max_time={max_time}, rotations {rl} / {rr}, random bases {rbl} / {rbr}"
+            try:
+                got = C.Interp(repo, ev, C.Scenario(), None).call_function(m, fn, [tp, params], {})
+            except C.EvalRaise as ex_:
+                bad_len = bad_len or f"{label}: raises {ex_}"
+                continue
+            want = {"type": tp.value, "number": number}
+            if max_time != 0:
+                want.update({"time_unit": params.fields["time_unit"].value, "max_time": max_time})
+            if tpn in ("M", "R"):
+                if rl != (0, 0, 0):
+                    want.update({"rotation_x_local1": rl[0], "rotation_y_local": rl[1], "rotation_x_local2": rl[2]})
+                if rr != (0, 0, 0):
+                    want.update({"rotation_x_remote1": rr[0], "rotation_y_remote": rr[1], "rotation_x_remote2": rr[2]})
+                if rbl:
+                    want["random_basis_local"] = params.fields["random_basis_local"].value
+                if rbr:
+                    want["random_basis_remote"] = params.fields["random_basis_remote"].value
+            label = f"type {tpn}, number={number}, max_time={max_time}, rotations {rl} / {rr}, random bases {rbl} / {rbr}"
+            if not isinstance(got, list) or len(got) != length:
+                bad_len = f"{label}: the array is {got!r}"
+                continue
+            for slot, k in idx.items():
+                g_, w_ = got[k], want.get(slot)
+                if w_ is None and g_ is not None:
+                    extra.setdefault(slot, f"{label}: slot holds {g_!r}, the field is not set (or does not apply to this request type)")
+                elif w_ is not None and g_ is None:
+                    missing.setdefault(slot, f"{label}: slot is None, expected {w_!r}")
+                elif w_ is not None and (g_ != w_ or isinstance(g_, bool) != isinstance(w_, bool)):
+                    wrong.setdefault(slot, f"{label}: slot holds {g_!r}, expected {w_!r}")
+    except C.EvalRaise as ex_:
+        bad_len = f"raises {ex_}"
+    except AnalysisError as ex_:
+        ctx.error("C11.S", f"serialize_request cannot be evaluated: {ex_}")
+        idx = {}
+    ctx.anchor("C11.S", "argument combinations serialised", n, 400)
+    for slot in sorted(idx):
+        ctx.check("C11.S", f"serialize_request:{slot}", slot not in wrong and slot not in extra,
+                  f"slot `{slot}` of the argument array does not carry its own field: {wrong.get(slot) or extra.get(slot)}", repo.loc(m, fn), sample={"slot": slot})
+        ctx.check("C11.S", f"serialize_request:{slot}:written-whenever-its-own-field-is-set", slot not in missing,
+                  f"for some combinations of arguments the field never reaches the array and the network stack sees its default instead - {missing.get(slot)}", repo.loc(m, fn), sample={"slot": slot})
+    if idx:
+        ctx.check("C11.S", "serialize_request:array-length", bad_len is None, f"serialize_request does not return a list of SER_CREATE_LEN = {length} entries for every request: {bad_len}", repo.loc(m, fn))
+    # deserialize: executed for 0, 1, 2 and 5 pairs against an array that answers get_future_index(k) with a token for entry k
     for fname, fam, lenname, cls in (("deserialize_epr_keep_results", "SER_RESPONSE_KEEP_IDX_", "SER_RESPONSE_KEEP_LEN", "EprKeepResult"),
                                      ("deserialize_epr_measure_results", "SER_RESPONSE_MEASURE_IDX_", "SER_RESPONSE_MEASURE_LEN", "EprMeasureResult")):
         f2 = m.functions.get(fname)
         if f2 is None:
             raise AnalysisError(f"{fname} not found")
         ctx.fn(f"build_epr.{fname}")
-        # one result per requested pair: the constructor is evaluated once per i in range(request.number), as a loop or a comprehension
-        preq, parr = A.param_names(f2)[:2]
-        iters = [(x.target, x.iter, x) for x in ast.walk(f2) if isinstance(x, ast.For)] + [(g.target, g.iter, x) for x in ast.walk(f2) if isinstance(x, ast.ListComp) for g in x.generators]
-        iters = [(t_, it_, x) for t_, it_, x in iters if A.norm(it_) == f"range({preq}.number)" and isinstance(t_, ast.Name)]
-        calls = [(c, x) for t_, it_, x in iters for c in ast.walk(x) if isinstance(c, ast.Call) and A.call_name(c) == cls]
-        ok_loop = len(iters) == 1 and len(calls) == 1
-        ctx.check("C11.S", f"{fname}:one-result-per-pair", ok_loop, f"{fname} does not build one result per requested pair", repo.loc(m, f2))
-        if not ok_loop:
+        ln = ev.name(BE, lenname)
+        rc = m.classes.get(cls)
+
+        class Arr:
+            _nqsa_model = True
+
+            def __init__(self, n_):
+                self.n_ = n_
+
+            def __len__(self):
+                return self.n_
+
+            def get_future_index(self, k_):
+                return ("entry", k_)
+
+        def request(number):
+            return C.Obj(None, {"remote_node_id": 2, "epr_socket_id": 1, "number": number, "post_routine": None, "sequential": False, "time_unit": member("TimeUnit", "MICRO_SECONDS"), "max_time": 0,
+                                "expect_phi_plus": True, "min_fidelity_all_at_end": None, "max_tries": None, "random_basis_local": None, "random_basis_remote": None,
+                                "rotations_local": (1, 2, 3), "rotations_remote": (4, 5, 6)})
+
+        extra_args = [member("EPRRole", "RECV")] if len(A.param_names(f2)) > 2 else []
+        per_attr, count_bad, start_bad, refuse_bad = {}, None, None, None
+        attrs = []
+        try:
+            for number in (0, 1, 2, 5):
+                out = C.Interp(repo, ev, C.Scenario(), None).call_function(m, f2, [request(number), Arr(number * ln)] + extra_args, {})
+                if not isinstance(out, list) or len(out) != number or not all(isinstance(r_, C.Obj) and r_.cls is rc for r_ in out):
+                    count_bad = f"{number} pairs requested: the result is {out!r}"[:300]
+                    continue
+                for i_, r_ in enumerate(out):
+                    for k, v in r_.fields.items():
+                        if k not in RESULT_ATTR_SLOT:
+                            continue
+                        if k not in attrs:
+                            attrs.append(k)
+                        slotname = f"{fam}{RESULT_ATTR_SLOT[k].upper()}"
+                        sv = ev.try_eval(ast.Name(id=slotname, ctx=ast.Load()), m)
+                        if sv is None:
+                            sv = ev.try_eval(ast.Name(id=slotname.replace("DIRECTIONALITY", "DIRECTONIALITY"), ctx=ast.Load()), m)
+                        want_e = ("entry", i_ * ln + sv) if isinstance(sv, int) else None
+                        if isinstance(v, tuple) and len(v) == 2 and isinstance(v[1], int) and v[1] // ln != i_:
+                            start_bad = start_bad or f"pair {i_} of {number}: `{k}` reads array entry {v[1]}, outside its own record {i_ * ln}..{(i_ + 1) * ln - 1}"
+                        if v != want_e:
+                            per_attr.setdefault(k, f"pair {i_} of {number}: result attribute `{k}` reads {v!r}; expected slot {slotname} of pair {i_}, i.e. entry {want_e[1] if want_e else '?'}")
+            if extra_args:
+                # what is not read from the array: the bases are the request's rotations, and the outcome is post-processed exactly
+                # for the receiving side of a request that expects phi+
+                for role_n in ("CREATE", "RECV"):
+                    for phi in (True, False):
+                        rq = request(1)
+                        rq.fields["expect_phi_plus"] = phi
+                        out = C.Interp(repo, ev, C.Scenario(), None).call_function(m, f2, [rq, Arr(ln), member("EPRRole", role_n)], {})
+                        f_ = out[0].fields if isinstance(out, list) and len(out) == 1 and isinstance(out[0], C.Obj) else {}
+                        if f_.get("measurement_basis_local") != (1, 2, 3) or f_.get("measurement_basis_remote") != (4, 5, 6):
+                            per_attr.setdefault("measurement_basis", f"the bases recorded are {f_.get('measurement_basis_local')!r} / {f_.get('measurement_basis_remote')!r}, the request says (1, 2, 3) / (4, 5, 6)")
+                        if bool(f_.get("post_process")) != (phi and role_n == "RECV") or not isinstance(f_.get("post_process"), bool):
+                            per_attr.setdefault("post_process", f"role {role_n}, expect_phi_plus={phi}: post_process is {f_.get('post_process')!r}")
+                for k in ("measurement_basis", "post_process"):
+                    ctx.check("C11.S", f"{fname}:{k}", k not in per_attr, f"{per_attr.get(k)}", repo.loc(m, f2), trivial=True)
+                    per_attr.pop(k, None)
+            for number, size in ((2, 2 * ln - 1), (1, 2 * ln)):
+                try:
+                    C.Interp(repo, ev, C.Scenario(), None).call_function(m, f2, [request(number), Arr(size)] + extra_args, {})
+                    refuse_bad = f"an array of {size} entries is accepted for {number} pairs of {ln} entries each"
+                except C.EvalRaise:
+                    pass
+        except C.EvalRaise as ex_:
+            count_bad = f"raises {ex_}"
+        except AnalysisError as ex_:
+            ctx.error("C11.S", f"{fname} cannot be evaluated: {ex_}")
             continue
-        iv = iters[0][0].id
-        d2 = A.single_defs(f2)
-        d2.update({st.targets[0].id: st.value for st in ast.walk(iters[0][2]) if isinstance(st, ast.Assign) and isinstance(st.targets[0], ast.Name)})
-        length = ev.try_eval(ast.Name(id=lenname, ctx=ast.Load()), m)
-
-        def offset_fn(e):
-            """value of the index expression for i = 0, 1, 2, 5 (None when it cannot be evaluated)"""
-            e = A.expand(e, {k_: v_ for k_, v_ in d2.items() if k_ != iv})
-            env = {}
-            for x in ast.walk(e):
-                if isinstance(x, ast.Name) and x.id.isupper():
-                    env[x.id] = ev.try_eval(x, m)
-            try:
-                return [G.peval(e, dict(env, **{iv: k_})) for k_ in (0, 1, 2, 5)]
-            except Unknown:
-                return None
-
-        firsts = []
-        for k, v in A.kwargs_of(calls[0][0]).items():
-            if k not in RESULT_ATTR_SLOT:
-                continue
-            slotname = f"{fam}{RESULT_ATTR_SLOT[k].upper()}"
-            slot_val = ev.try_eval(ast.Name(id=slotname, ctx=ast.Load()), m)
-            if slot_val is None:
-                slot_val = ev.try_eval(ast.Name(id=slotname.replace("DIRECTIONALITY", "DIRECTONIALITY"), ctx=ast.Load()), m)
-            got = None
-            if isinstance(v, ast.Call) and A.norm(v.func) == f"{parr}.get_future_index" and len(v.args) == 1:
-                got = offset_fn(v.args[0])
-            want = [k_ * length + slot_val for k_ in (0, 1, 2, 5)] if isinstance(length, int) and isinstance(slot_val, int) else None
-            if got is not None:
-                firsts.append(got[0] - (slot_val or 0) if isinstance(got[0], int) else None)
-            ctx.check("C11.S", f"{fname}:{k}", got is not None and got == want, f"result attribute `{k}` reads `{src(v)}` (indices {got} for pairs 0, 1, 2, 5); expected slot {slotname} of pair i, i.e. {want}", repo.loc(m, v),
-                      sample={"result": cls, "attribute": k, "slot": RESULT_ATTR_SLOT[k]})
-        ctx.check("C11.S", f"{fname}:pair-i-starts-at-i*LEN", bool(firsts) and all(f_ == 0 for f_ in firsts), f"pair 0 is not read from the start of the array (offsets {firsts})", repo.loc(m, f2), trivial=True)
+        ctx.check("C11.S", f"{fname}:one-result-per-pair", count_bad is None, f"{fname} does not build one {cls} per requested pair: {count_bad}", repo.loc(m, f2))
+        ctx.check("C11.S", f"{fname}:array-of-the-wrong-size-refused", refuse_bad is None, f"{fname}: {refuse_bad}", repo.loc(m, f2), trivial=True)
+        for k in attrs:
+            ctx.check("C11.S", f"{fname}:{k}", k not in per_attr, f"{per_attr.get(k)}", repo.loc(m, f2), sample={"result": cls, "attribute": k, "slot": RESULT_ATTR_SLOT[k]})
+        if count_bad is None:
+            ctx.anchor("C11.S", f"{fname}: result attributes read from the array", len(attrs), 4)
+            ctx.check("C11.S", f"{fname}:pair-i-starts-at-i*LEN", start_bad is None, f"the record of pair i is not read from the entries i * {ln} .. i * {ln} + {ln - 1}: {start_bad}", repo.loc(m, f2), trivial=True)
 
 
 def enum_uses(repo, m, fn, param) -> Dict[str, Set[str]]:
@@ -610,7 +682,7 @@ SEEDS = [
     dict(id="c11-resp-idx", file=BEF, expect="C11.I", construct="SER_RESPONSE_MEASURE_IDX_GOODNESS", old="SER_RESPONSE_MEASURE_IDX_GOODNESS = 8", new="SER_RESPONSE_MEASURE_IDX_GOODNESS = 7"),
     dict(id="c11-tuple-field-moved", file="netqasm/qlink_compat.py", expect="C11.I", construct="SER_RESPONSE_KEEP_IDX", old='        "goodness",\n        "goodness_time",\n        "bell_state",\n    ],\n)\nLinkLayerOKTypeK.__new__', new='        "goodness_time",\n        "goodness",\n        "bell_state",\n    ],\n)\nLinkLayerOKTypeK.__new__'),
     dict(id="c11-rot-slot", file=BEF, expect="C11.S", construct="rotation_y_local", old="            array[SER_CREATE_IDX_ROTATION_Y_LOCAL] = params.rotations_local[1]", new="            array[SER_CREATE_IDX_ROTATION_Y_LOCAL] = params.rotations_local[2]"),
-    dict(id="c11-remote-basis", file=BEF, expect="C11.S", construct="random_basis_remote", old="            array[SER_CREATE_IDX_RANDOM_BASIS_REMOTE] = params.random_basis_remote.value", new="            array[SER_CREATE_IDX_RANDOM_BASIS_REMOTE] = params.random_basis_local.value"),
+    dict(id="c11-remote-basis", file=BEF, expect="C11.S", construct="serialize_request:", old="            array[SER_CREATE_IDX_RANDOM_BASIS_REMOTE] = params.random_basis_remote.value", new="            array[SER_CREATE_IDX_RANDOM_BASIS_REMOTE] = params.random_basis_local.value"),
     dict(id="c11-duration-slot", file=BEF, expect="C11.S", construct="generation_duration", old="                generation_duration=array.get_future_index(\n                    base + SER_RESPONSE_KEEP_IDX_GOODNESS\n                ),", new="                generation_duration=array.get_future_index(\n                    base + SER_RESPONSE_KEEP_IDX_GOODNESS_TIME\n                ),"),
     dict(id="c11-base", file=BEF, expect="C11.S", construct="pair-i-starts", old="        base = i * SER_RESPONSE_MEASURE_LEN", new="        base = i * SER_RESPONSE_MEASURE_LEN + 1"),
     dict(id="c11-orig-coercion", file=XF, expect="C11.C", construct="random_basis_local", old='        kwargs["random_basis_local"] = RandomBasis(kwargs["random_basis_local"])  # type: ignore\n', new=""),
